@@ -2,9 +2,10 @@
 C15 — the property itself, over plain data, independently of how the store lays out keys:
 
 * the store is an abstract map `id ↦ object` (`Abs`, a list with at most one object per id);
-* `create` fails with "exists" when the id is stored, `replace` fails with "missing" when it is not, `put` and
-  `delete` always succeed; a failed or rejected operation (also: one whose transaction hit an I/O fault) leaves
-  the map unchanged; `rebuild` and `reopen` never change it;
+* `create` fails with "exists" when the id is stored, `replace` fails with "missing" when it is not; otherwise
+  create / put / replace fail with "conflict" when the object would share its value of a UNIQUE index with a stored
+  object of another id; `delete` always succeeds; a failed or rejected operation (also: one whose transaction hit
+  an I/O fault) leaves the map unchanged; `rebuild` and `reopen` never change it;
 * `get id` = the object last stored under `id`;
 * every index lists exactly the stored objects, each once, ordered by (index value, id)  (`IsListing`);
 * `List(pattern, offset, limit)` = the listing filtered by the pattern (on the id), minus the first `offset`
@@ -23,11 +24,19 @@ def absGet (m : Abs) (id : Str) : Option Obj := m.find? (fun o => o.id = id)
 def absSet (m : Abs) (o : Obj) : Abs := o :: m.filter (fun x => x.id ≠ o.id)
 def absDel (m : Abs) (id : Str) : Abs := m.filter (fun x => x.id ≠ id)
 
+/-- Storing `o` would give it a value of a unique index that a stored object of ANOTHER id already has. -/
+def absConflict (c : Cfg) (m : Abs) (o : Obj) : Bool :=
+  c.indexes.any (fun i => i.unique && m.any (fun x => x.id != o.id && i.sel.get x == i.sel.get o))
+
+/-- Store `o` unless a unique index forbids it. -/
+def absStore (c : Cfg) (m : Abs) (o : Obj) : Abs × Option Err :=
+  if absConflict c m o then (m, some .conflict) else (absSet m o, none)
+
 /-- What an operation does when no I/O fault strikes: new map and result. -/
-def specApply (m : Abs) : Op → Abs × Option Err
-  | .create o _ => if (absGet m o.id).isSome then (m, some .exists_) else (absSet m o, none)
-  | .put o _ => (absSet m o, none)
-  | .replace o _ => if (absGet m o.id).isSome then (absSet m o, none) else (m, some .missing)
+def specApply (c : Cfg) (m : Abs) : Op → Abs × Option Err
+  | .create o _ => if (absGet m o.id).isSome then (m, some .exists_) else absStore c m o
+  | .put o _ => absStore c m o
+  | .replace o _ => if (absGet m o.id).isSome then absStore c m o else (m, some .missing)
   | .delete id _ => (absDel m id, none)
   | .rebuild _ => (m, none)
   | .reopen => (m, none)
@@ -39,10 +48,10 @@ def Op.fault : Op → Fault
 /-- Is `res` an admissible result of `op` in state `m`, and which state follows? An operation carrying an
 injected fault may fail with `io` (then nothing changes) or go through as if there were no fault (the fault
 position was not reached); without a fault `io` is not admissible. -/
-def specStep (m : Abs) (op : Op) (res : Option Err) : Option Abs :=
+def specStep (c : Cfg) (m : Abs) (op : Op) (res : Option Err) : Option Abs :=
   if res = some .io then (if op.fault = .none then none else some m)
   else
-    let (m', r) := specApply m op
+    let (m', r) := specApply c m op
     if res = r then (if op.fault = .commit ∧ r = none then none else some m') else none
 
 /-- Order of an index: by index value, ties by id. -/
@@ -96,7 +105,7 @@ def Cfg.wfObj (c : Cfg) (o : Obj) : Bool :=
 def Cfg.wf (c : Cfg) : Bool :=
   WFseg c.pfx && c.indexes.all (fun i => WFseg i.name) && decide ((c.indexes.map (·.name)).Nodup)
 
-/-- A unique index other than one on the id has distinct values over the stored objects. -/
+/-- Every unique index has distinct values over the stored objects (decidable form of `UniqueOK`). -/
 def uniqueOK (c : Cfg) (m : Abs) : Bool :=
   c.indexes.all (fun i => !i.unique ||
     m.all (fun a => m.all (fun b => a.id = b.id || i.sel.get a ≠ i.sel.get b)))
